@@ -71,4 +71,6 @@ def min_size(n, classes_min) -> int:
         return 1
     if k == "struct":
         return classes_min(n.get("class"))
+    if k == "opaque":
+        return 1  # not understood: reported as an analysis limit by the caller (W.finish), never as "0 bytes"
     return 0
